@@ -272,7 +272,7 @@ func (vc *VC) evalIdent(name string, env *Env, st *State) Val {
 	if sf, ok := vc.prog.contracts.Specs[name]; ok && len(sf.Params) == 0 {
 		return vc.evalCall(&ECall{Fn: name}, env, st, st)
 	}
-	panic(unsupported("unknown identifier %q in contract of %s", name, vc.fn))
+	panic(unsupported("unknown identifier %q in contract of %s", name, vc.where()))
 }
 
 func (vc *VC) objVal(obj types.Object, st *State) Val {
@@ -563,6 +563,9 @@ func (vc *VC) evalCall(x *ECall, env *Env, st, old *State) Val {
 	case "fresh":
 		a := arg(0)
 		return Val{K: KBool, T: tBool, S: sx(">=", sx("rootOf", vc.addrOf(a)), "|alloc@0|")}
+	case "live": // refers to memory allocated so far in this state
+		a := arg(0)
+		return Val{K: KBool, T: tBool, S: sx("<", sx("rootOf", vc.addrOf(a)), st.alloc)}
 	case "allocated": // existed before the call/entry
 		a := arg(0)
 		return Val{K: KBool, T: tBool, S: sx("<", sx("rootOf", vc.addrOf(a)), old.alloc)}
@@ -670,4 +673,11 @@ func (vc *VC) evalGhost(g *GhostDecl, x *ECall, env *Env, st, old *State) Val {
 	comp := "|G:" + g.Name + "|"
 	vc.regCompFull(comp, "(Array Int "+srt+")")
 	return Val{K: k, T: tInt, S: sx("select", vc.heap(st, comp), args[0]), Sort: srt}
+}
+
+func (vc *VC) where() string {
+	if vc.fn != nil {
+		return vc.fn.String()
+	}
+	return "lemma"
 }
